@@ -399,3 +399,24 @@ Proof.
   - rewrite HIo, H0, <- E; [apply ctree_of_build_nonfile; [repeat split; assumption|]|];
       intros d Hd; apply in_files_of in Hd; apply (tlookup_nodup new p _ ND) in Hd; rewrite E in Hd; discriminate.
 Qed.
+
+(** ... through any codec of the frame list that round-trips *)
+Lemma diff_apply_fresh_any_codec_lemma :
+  forall (B : Type) (encode : list frame -> B) (decode : B -> option (list frame)),
+    (forall fs, decode (encode fs) = Some fs) ->
+  forall (bs : Z) (differ : Z -> list byte -> list op) (old new : build) (algo quality : Z),
+    0 < bs -> wf_build new -> fits63 old -> fits63 new -> diff_ok bs (contents_of old) differ ->
+    exists fs t touched trace,
+      decode (encode (write_patch differ algo quality old new)) = Some fs /\
+      apply_patch_fresh bs (contents_of old) None fs = Ok (t, touched, trace) /\
+      forall p, tlookup t p = tlookup new p.
+Proof.
+  intros B encode decode RT bs differ old new algo quality Hbs WF FO FN DOK.
+  destruct (diff_apply_fresh_lemma bs differ old new algo quality Hbs WF FO FN DOK) as (t & touched & trace & H & _ & Ht).
+  exists (write_patch differ algo quality old new), t, touched, trace. split; [apply RT|]. split; assumption.
+Qed.
+
+Lemma diff_ok_data_only bs olds : diff_ok bs olds (fun _ data => [OpData data]).
+Proof.
+  intros pref data. split; [discriminate|]. split; [cbn; apply app_nil_r|]. repeat constructor.
+Qed.
